@@ -228,7 +228,7 @@ def parse(repo=None):
 def coq_text(T):
     o = ["(* GENERATED by translate/digest_tables.py from /repo/tlx/digest/*.{cpp,hpp}, tlx/string/hexdump.cpp,",
          "   tlx/siphash.hpp -- do not edit; rewritten on every check run *)",
-         "From Coq Require Import NArith List.", "Import ListNotations.", "Open Scope N_scope.", ""]
+         "From Coq Require Import NArith List.", "Import ListNotations.", "Local Open Scope N_scope.", ""]
     o.append("Definition md5_Worder : list nat := %s%%nat." % nlist(T["md5_Worder"], 16))
     o.append("Definition md5_Rorder : list N := %s." % nlist(T["md5_Rorder"], 16))
     o.append("Definition md5_Korder : list N := %s." % nlist(T["md5_Korder"], 4, 8))
